@@ -170,6 +170,29 @@ def explore(run, tier):
                     continue
                 cases.append({'cfg': 'pkg', 'codec': codec, 'hex': (k + ci) % 2, 'data': data.hex(), 'mut': 'valid'})
                 cases.append({'cfg': 'pkg', 'codec': codec, 'hex': (k + ci) % 2, 'data': data[:-1].hex(), 'mut': 'truncate'})
+    # a caller's configuration with LONG fixed-width elements (1003, 1500, 2500 characters — longer than any variable
+    # element can be): every element is handed the rest of the message, however long its own part is
+    longcfg = {'2': {'field_name': 'a', 'field_type': 'LLVAR', 'field_length': 0},
+               '3': {'field_name': 'b', 'field_type': 'FIXED', 'field_length': 1003},
+               '4': {'field_name': 'c', 'field_type': 'FIXED', 'field_length': 1500},
+               '5': {'field_name': 'd', 'field_type': 'FIXED', 'field_length': 6, 'field_python_type': 'int'},
+               '70': {'field_name': 'e', 'field_type': 'FIXED', 'field_length': 2500},
+               '71': {'field_name': 'f', 'field_type': 'LLLVAR', 'field_length': 0}}
+    for ci, codec in enumerate(['latin_1', 'cp500']):
+        for present in ([3], [4], [70], [2, 3, 4, 5, 70, 71], [3, 5], [4, 71]):
+            m = {'MTI': '1240'}
+            for b in present:
+                fc = longcfg[str(b)]
+                m[f'DE{b}'] = 123456 if fc.get('field_python_type') else iu.text(rng, codec, fc['field_length'] or 17).rstrip(' ') + 'x'
+            for b in present:
+                if isinstance(m[f'DE{b}'], str) and longcfg[str(b)]['field_type'] == 'FIXED':
+                    m[f'DE{b}'] = m[f'DE{b}'][:longcfg[str(b)]['field_length']].ljust(longcfg[str(b)]['field_length'], 'z')
+            try:
+                data = iso8583.dumps(dict(m), encoding=codec, iso_config=longcfg, hex_bitmap=bool(ci))
+            except Exception:  # noqa
+                continue
+            cases.append({'cfg': longcfg, 'codec': codec, 'hex': ci, 'data': data.hex(), 'mut': 'valid'})
+            cases.append({'cfg': longcfg, 'codec': codec, 'hex': ci, 'data': data[:-1].hex(), 'mut': 'truncate'})
     bm = lambda bits: sum(1 << (128 - b) for b in [1] + bits).to_bytes(16, 'big')   # noqa: E731
     # every variable-length element of the packaged configuration with a declared length of ZERO, alone and followed by
     # another element: well-framed, accepted, the element present with an empty value (and its derived entries)
